@@ -250,7 +250,10 @@ def run(ctx):
     ctx.rule = RULE
     ctx.assumptions = ['Verilator randReset(2) with +verilator+seed+N is the seed-enumerated power-on state space',
                        'planted states are written through the public model variables before hextb.cpp\'s own load() and run() are called',
-                       'the reset window is the first five rising edges (run(..., maxCycles=4))']
+                       'the reset window is the first five rising edges (run(..., maxCycles=4))',
+                       'binaries never read a word they have not written (as in C06): the RTL memory has no reset and hextb randomises it on purpose, so a '
+                       'program that reads such a word (tests/asm/hello_procedure.S exits with a never-written sp[2]: status 38 or 48 by seed, 0 on hexsim) '
+                       'depends on memory outside the image by its own definition, not through the testbench']
     build.build_many(['tool-xcmp', 'tool-hexasm', 'hextb', 'c13planted'])
     quick = ctx.tier == 'quick'
     for path in driver.regress_files('C13'):
